@@ -139,6 +139,11 @@ def make_case(rng, i, tier):
     cands = [(ri, k) for ri, (_, _, b) in enumerate(desc["rules"]) for k, y in enumerate(b) if y not in V]
     rng.shuffle(cands)
     unf = cands[:2]
+    if rng.random() < 0.12:
+        # integer token ids (0 is falsy), handed to the library as ints, numpy integers or floats
+        desc, (xs,), _ = gen.intify_terms(desc, xs)
+        tt = rng.choice([None, "float"])
+        return {"id": i, "shape": shape + "+int_tokens" + ("+" + tt if tt else ""), "R": R, "cfg": desc, "xs": xs, "unfold": unf, "token_type": tt}
     return {"id": i, "shape": shape, "R": R, "cfg": desc, "xs": xs, "unfold": unf}
 
 
